@@ -71,7 +71,7 @@ let candidate (c : cfg) (v : view) : op option =
   | `Unrotated -> Some OUnrotated
   | `Transposed -> if r >= 2 then Some OTransposed else None
   | `Reversed -> Some OReversed
-  | `Diagonal -> if r >= 2 then Some ODiagonal else None
+  | `Diagonal -> if r >= 2 && (not c.rebased || diag_ok v) then Some ODiagonal else None
   | `Partitioned -> if n > 0 && r < c.maxd then Some (OPartitioned (z (pick (divisors n)))) else None
   | `Chunked -> if n > 0 && r < c.maxd then Some (OChunked (z (pick (divisors n)))) else None
   | `Halved -> if n > 0 && n mod 2 = 0 && r < c.maxd then Some OHalved else None
@@ -135,16 +135,25 @@ let root_sizes () (c : cfg) : (int * int) list =
       (f, f + n))
 
 (* emits one case; returns (number of ops applied, op kinds) *)
-let gen_case ?(with_probes = true) ?(tail = fun (_ : string) (_ : view) (_ : Buffer.t) (_ : Buffer.t) -> ([] : string list))
+let gen_case ?(with_probes = true) ?twin ?(tail = fun (_ : string) (_ : view) (_ : Buffer.t) (_ : Buffer.t) -> ([] : string list))
     (c : cfg) (id : string) (prog : Buffer.t) (obs : Buffer.t) : string list =
   let exts = root_sizes () c in
   let pr b s = Buffer.add_string b s; Buffer.add_char b '\n' in
   pr prog ("case " ^ id);
   pr prog (Printf.sprintf "root %d %s" (List.length exts) (join " " (fun (f, l) -> Printf.sprintf "%d %d" f l) exts));
+  let tw s = match twin with Some b -> pr b s | None -> () in
+  tw ("case " ^ id);
+  tw (Printf.sprintf "root %d %s" (List.length exts) (join " " (fun (f, l) -> Printf.sprintf "0 %d" (l - f)) exts));
   let v0 = root_view (List.map (fun (f, l) -> (z f, z l)) exts) in
   let nroot = i (l_num_elements v0.lay) in
   let emit_probes step v =
-    if with_probes then List.iter (fun idx -> pr prog ("probe " ^ join " " string_of_int idx); pr obs (probe_line id step v nroot idx)) (probes v) in
+    if with_probes then
+      List.iter
+        (fun idx ->
+          pr prog ("probe " ^ join " " string_of_int idx);
+          tw ("probe " ^ join " " string_of_int (List.map2 (fun k f -> k - i f) idx (firsts_of v)));
+          pr obs (probe_line id step v nroot idx))
+        (probes v) in
   pr obs (shape_line id 0 v0);
   emit_probes 0 v0;
   let nops = rnd_range 0 c.maxops in
@@ -159,6 +168,7 @@ let gen_case ?(with_probes = true) ?(tail = fun (_ : string) (_ : view) (_ : Buf
     | None -> ()
     | Some o ->
         incr step;
+        (match twin_op !v o with [] -> tw "op nop" | l -> List.iter (fun o' -> tw ("op " ^ op_text o')) l);
         v := exec_op o !v;
         kinds := op_kind o :: !kinds;
         pr prog ("op " ^ op_text o);
@@ -167,6 +177,7 @@ let gen_case ?(with_probes = true) ?(tail = fun (_ : string) (_ : view) (_ : Buf
   done;
   let extra_kinds = tail id !v prog obs in
   pr prog "end";
+  tw "end";
   pr obs ("E " ^ id);
   List.rev !kinds @ extra_kinds
 
@@ -218,6 +229,7 @@ let run_text ?(extra = fun (_ : string) (_ : view) (_ : string list list) (_ : B
           v := root_view (pairs rest);
           nroot := i (l_num_elements !v.lay);
           pr (shape_line !id 0 !v)
+      | [ "op"; "nop" ] when not !dead -> incr step; pr (shape_line !id !step !v)
       | "op" :: toks when not !dead ->
           let o = parse_op toks in
           incr step;
